@@ -368,17 +368,37 @@ pub fn run(rep: &mut Report, tier: &str)
     use std::process::{Command, Stdio};
     let exe = match std::env::current_exe() { Ok(e) => e, Err(e) => { rep.machinery(format!("cannot find own executable: {}", e)); return; } };
     let cmd = format!("ulimit -v 6000000; exec '{}' c16-child --tier {}", exe.display(), tier);
-    let outp = match Command::new("sh").arg("-c").arg(&cmd).stdout(Stdio::piped()).stderr(Stdio::null()).output()
+    // run the child with a time limit: a reader that never returns is a verdict too
+    let limit = std::time::Duration::from_secs(if tier == "thorough" { 1500 } else { 300 });
+    let mut child = match Command::new("sh").arg("-c").arg(&cmd).stdout(Stdio::piped()).stderr(Stdio::null()).spawn()
     {
-        Ok(o) => o,
+        Ok(c) => c,
         Err(e) => { rep.machinery(format!("cannot start child: {}", e)); return; },
     };
-    let text = String::from_utf8_lossy(&outp.stdout).to_string();
+    let mut out_pipe = child.stdout.take().expect("child stdout");
+    let reader = std::thread::spawn(move || { let mut v = vec![]; let _ = std::io::Read::read_to_end(&mut out_pipe, &mut v); v });
+    let started = std::time::Instant::now();
+    let mut timed_out = false;
+    let status = loop
+    {
+        match child.try_wait()
+        {
+            Ok(Some(st)) => break Some(st),
+            Ok(None) => {},
+            Err(_) => break None,
+        }
+        if started.elapsed() > limit { timed_out = true; let _ = child.kill(); let _ = child.wait(); break None; }
+        std::thread::sleep(std::time::Duration::from_millis(50));
+    };
+    let stdout_bytes = reader.join().unwrap_or_default();
+    struct Outp { status_ok: bool, code: Option<i32> }
+    let outp = Outp { status_ok: status.map(|s| s.success()).unwrap_or(false), code: status.and_then(|s| s.code()) };
+    let text = String::from_utf8_lossy(&stdout_bytes).to_string();
     let last_item = text.lines().rev().find(|l| l.starts_with("ITEM ")).map(|l| l[5..].to_string()).unwrap_or_default();
     let result = text.lines().rev().find(|l| l.starts_with("RESULT ")).and_then(|l| serde_json::from_str::<Value>(&l[7..]).ok());
     match result
     {
-        Some(v) if outp.status.success() =>
+        Some(v) if outp.status_ok =>
         {
             if let Some(m) = v["coverage"].as_object() { for (k, x) in m { rep.set(k, x.clone()); } }
             if let Some(m) = v["bad"].as_object()
@@ -406,12 +426,12 @@ pub fn run(rep: &mut Report, tier: &str)
             rep.set("distinct_nontrivial", json!(2));
             rep.set("exhaustive", json!(false));
             rep.push_sample(json!({"last_item_before_the_reader_died": last_item}));
-            let what = "reading a damaged state file kills the process (abort / allocation failure) instead of returning an error";
+            let what = if timed_out { "reading a state file does not return" } else { "reading a damaged state file kills the process (abort / allocation failure) instead of returning an error" };
             rep.violation(Violation
             {
                 property: "C16".into(),
                 signature: format!("C16:state:{}", what),
-                summary: format!("{}: child exit {:?} while reading: {}", what, outp.status.code(), last_item),
+                summary: format!("{}: child exit {:?} while reading: {}", what, outp.code, last_item),
                 replay: json!({"engine": "state", "what": what}),
             });
         },
